@@ -26,7 +26,7 @@ def plan(tier, seed):
 
 def thresholds(tier):
   t = {"programs": 220, "cycles_cosimulated": 5000, "driver_sets_analysed": 3000, "corpus_cases_cosimulated": 50,
-       "stdlib_components_cosimulated": 60, "generated_designs_cosimulated": 150, "param_designs_cosimulated": 60, "svsim_lrm_examples_ok": 24,
+       "stdlib_components_cosimulated": 60, "generated_designs_cosimulated": 150, "param_designs_cosimulated": 60, "svsim_lrm_examples_ok": 24, "struct_constants_evaluated_in_text": 40,
        "struct_leaf_ports_mapped": 300, "array_element_ports_mapped": 300}
   if tier == "thorough":
     t.update({"programs": 4000, "generated_designs_cosimulated": 3500, "cycles_cosimulated": 80000})
@@ -36,7 +36,7 @@ def thresholds(tier):
 def knobs_clean(rng):
   return {"depth": rng.choice([0, 1, 1, 2]), "max_children": rng.choice([1, 2]), "p_struct": rng.choice([0.3, 0.6]), "p_list": 0.3,
           "p_ff": 0.25, "max_sigs": rng.choice([3, 4]), "expr_depth": rng.choice([2, 3]), "struct_split": False, "struct_wires": False, "for_desc": False,
-          "p_nested_field": rng.choice([0, 0, 0, 0.3]), "p_list_field": rng.choice([0, 0, 0.4])}
+          "p_nested_field": rng.choice([0, 0, 0, 0.3]), "p_list_field": rng.choice([0, 0.4, 0.4]), "p_const_struct": rng.choice([0.2, 0.7])}
 
 
 def knobs_probe(rng):
